@@ -277,14 +277,7 @@ pub fn atomic_rules() -> Vec<RuleSpec> {
 }
 
 fn all_markers() -> Vec<MarkerSpec> {
-    vec![
-        MarkerSpec { name: "n".into(), regex: "[0-9]+".into(), transformers: vec![] },
-        MarkerSpec { name: "w".into(), regex: "([\\p{Ll}]|\\-)+?".into(), transformers: vec![] },
-        MarkerSpec { name: "sub".into(), regex: "[a-z]+".into(), transformers: vec![] },
-        MarkerSpec { name: "tld".into(), regex: "(com|net|org)".into(), transformers: vec![] },
-        MarkerSpec { name: "any".into(), regex: ".+?".into(), transformers: vec![] },
-        MarkerSpec { name: "up".into(), regex: "([A-Z]+?)".into(), transformers: vec![] },
-    ]
+    crate::world::marker_pool()
 }
 
 /// all rules in one bucket region (same path, no scheme / host / ip / method trigger), differing only in their
